@@ -10,14 +10,18 @@ from lib import sx, parse_sx
 PROOF_FILE = "C13"
 LEVEL = "proof"
 RULE = ("rooted graphs (node = system/name/version-type/version + error list; edge = from,to,requirement,dependency type) "
-        "with their renumberings of non-root nodes and shuffles of edges and per-node errors. Random tier: graphs of 1..40 "
-        "nodes over small alphabets (duplicate versions common), parallel typed edges, self loops, cycles, node errors, "
-        "k relabelings each. Exhaustive tier (thorough): ALL rooted graphs with n = 1..4 nodes whose labels range over "
-        "{a,b} x {1,2}, with every subset of the n*n directed edges (self loops included; one requirement, regular type) "
-        "and every renumbering fixing the root ((n-1)! each), plus all such graphs with n = 5 restricted to edge sets of "
-        "at most 4 edges; and all 3-node graphs over the same labels where every edge independently is absent, regular, "
-        "dev, or both (parallel typed edges). A case is non-trivial when the graph has two nodes that compare equal "
-        "(so the breadth-first labelling runs) and canonicalisation succeeds, or when it has >= 3 nodes and >= 2 edges.")
+        "with renumberings of the non-root nodes and shuffles of edges and per-node errors. Random tier: graphs of 1..40 "
+        "nodes over small alphabets (duplicate versions common, one family with a duplicate of the root), parallel typed "
+        "edges, self loops, cycles, node errors; 4 relabelings each (one in four done by the harness/model relabel). "
+        "Exhaustive tier (thorough), labels {a,b} x {1,2}, requirement empty, every labeling of every node: "
+        "E1 n=1,2,3 with every subset of the n*n ordered pairs (self loops included); "
+        "E2 n=4 with every subset of the 12 ordered pairs without self loops; "
+        "E3 n=5 where every non-root node has exactly one incoming edge from any other node (256 shapes); "
+        "E4 n=3 where every ordered pair without self loop carries no edge, a regular edge, a dev edge, or both (parallel "
+        "typed edges). Each space is closed under renumbering; ALL (n-1)! renumberings are covered by requiring the same "
+        "output for all members of an isomorphism class (1 605 896 graphs, 339 608 classes), and the output must be a member "
+        "of the class of its input (exact preservation test). A case is non-trivial when the graph has two equal nodes and "
+        "canonicalisation succeeds (breadth-first path), or has >= 3 nodes and >= 2 edges.")
 TRUSTED = [
     "Coq 8.16.1 kernel; vm_compute for the refuted witness",
     "translator harness/go/cmd/gotables/graph.go (insertion-sort cutoff of package sort; whether Canon consults the Dupe flag set inside Less)",
@@ -509,7 +513,83 @@ def comparator_tier(ctx):
     ctx.correspond("graph_build", cases)
 
 
+def drop_node(g, perm, k):
+    """g without non-root node k (incident edges dropped), perm adjusted"""
+    nodes, edges, err = g
+    ren = lambda i: i if i < k else i - 1
+    nn = [nd for i, nd in enumerate(nodes) if i != k]
+    ne = [[ren(e[0]), ren(e[1]), e[2], e[3]] for e in edges if e[0] != k and e[1] != k]
+    tk = perm[k]
+    np_ = [(x if x < tk else x - 1) for i, x in enumerate(perm) if i != k]
+    return (nn, ne, err), np_
+
+
+def shrink_invariance(ctx, g, perm, budget=400):
+    """greedy reduction of a pair (g, perm) with Canon(g) != Canon(g renumbered by perm); implementation only"""
+    def fails(g, perm):
+        o = ctx.impl("canon_graph", [g_sx(g), g_sx(g, perm)], shards=1)
+        return o[0] != o[1], o
+    bad, o = fails(g, perm)
+    if not bad:
+        return None
+    calls = 1
+    changed = True
+    while changed and calls < budget:
+        changed = False
+        for k in range(len(g[0]) - 1, 0, -1):
+            g2, p2 = drop_node(g, perm, k)
+            calls += 1
+            b, o2 = fails(g2, p2)
+            if b:
+                g, perm, o, changed = g2, p2, o2, True
+                break
+        if changed:
+            continue
+        for j in range(len(g[1]) - 1, -1, -1):
+            g2 = (g[0], g[1][:j] + g[1][j + 1:], g[2])
+            calls += 1
+            b, o2 = fails(g2, perm)
+            if b:
+                g, o, changed = g2, o2, True
+                break
+        if changed:
+            continue
+        for i, nd in enumerate(g[0]):
+            if nd[4]:
+                g2 = ([x if j != i else x[:4] + [[]] for j, x in enumerate(g[0])], g[1], g[2])
+                calls += 1
+                b, o2 = fails(g2, perm)
+                if b:
+                    g, o, changed = g2, o2, True
+                    break
+    return g, perm, o
+
+
+def finish_violations(ctx):
+    """smallest failing inputs first; the smallest invariance failure is reduced further"""
+    ctx.violations.sort(key=lambda v: len(json.dumps(v["input"], default=str)))
+    for v in ctx.violations:
+        inp = v["input"]
+        if isinstance(inp, dict) and inp.get("perm") and v["what"].startswith("canonical form depends"):
+            gv = fast_parse(inp["graph"])
+            res = shrink_invariance(ctx, (gv[0], gv[1], gv[2]), fast_parse(inp["perm"]))
+            if res is not None:
+                g, perm, o = res
+                ctx.violations.insert(0, {"what": v["what"] + " (reduced)", "kind": "oracle",
+                                          "input": {"graph": g_sx(g), "perm": sx(list(perm)), "renumbered_case": g_sx(g, perm),
+                                                    "replay_kind": "canon_graph"},
+                                          "observed": o[1], "required": o[0]})
+            break
+
+
 def run(ctx):
+    try:
+        run_checks(ctx)
+    finally:
+        finish_violations(ctx)
+
+
+def run_checks(ctx):
     variant = ctx.model("canon_variant", ["0"])[0]
     fixed = (variant == "1")
     cutoff = 12
@@ -524,7 +604,9 @@ def run(ctx):
         base = sx([v[0], v[1], v[2]])
         o_base, o_perm = ctx.impl("canon_graph", [base, arg])
         reproduces = (o_base != o_perm)
-        ctx.extra["known_finding_replay"] = {"id": KF, "reproduces_on_go": reproduces, "base": o_base, "renumbered": o_perm}
+        ctx.extra["known_finding_replay"] = {"id": KF, "reproduces_on_go": reproduces, "base": o_base, "renumbered": o_perm,
+                                             "as_recorded": (o_base == w["witness"].get("base_output") and
+                                                             o_perm == w["witness"].get("failing_output"))}
         if reproduces == fixed and w.get("status") == "open":
             ctx.notes.append("translator says Canon %s the flag set inside Less, but the recorded witness %s" % (
                 "does not read" if fixed else "reads", "still fails" if reproduces else "no longer fails"))
@@ -554,3 +636,169 @@ def oracle_only(ctx):
                 break
         for x, o in zip(gs, outs):
             orc.preserved(x, o)
+
+
+# ----------------------------------------------------------------------------- exhaustive small scope (thorough tier)
+
+EX_LABELS = [("a", "1"), ("a", "2"), ("b", "1"), ("b", "2")]
+T_REG, T_DEV = [], [[-1, ""]]
+
+
+def ex_spaces():
+    """(name, n, configs): configs = list of edge lists [(from, to, req, type)], each space closed under renumbering"""
+    spaces = []
+    for n in (1, 2, 3):
+        pairs = [(f, t) for f in range(n) for t in range(n)]
+        cfgs = []
+        for mask in range(1 << len(pairs)):
+            cfgs.append([(f, t, "", T_REG) for i, (f, t) in enumerate(pairs) if mask >> i & 1])
+        spaces.append(("E1:n=%d all subsets of the %d ordered pairs (self loops included)" % (n, len(pairs)), n, cfgs))
+    pairs = [(f, t) for f in range(4) for t in range(4) if f != t]
+    cfgs = []
+    for mask in range(1 << 12):
+        cfgs.append([(f, t, "", T_REG) for i, (f, t) in enumerate(pairs) if mask >> i & 1])
+    spaces.append(("E2:n=4 all subsets of the 12 ordered pairs without self loops", 4, cfgs))
+    cfgs = []
+    for parents in itertools.product(range(5), repeat=4):
+        if all(parents[i] != i + 1 for i in range(4)):
+            cfgs.append([(parents[i], i + 1, "", T_REG) for i in range(4)])
+    spaces.append(("E3:n=5 every non-root node has exactly one incoming edge, from any other node", 5, cfgs))
+    pairs = [(f, t) for f in range(3) for t in range(3) if f != t]
+    cfgs = []
+    for states in itertools.product(range(4), repeat=6):
+        es = []
+        for (f, t), st in zip(pairs, states):
+            if st & 1:
+                es.append((f, t, "", T_REG))
+            if st & 2:
+                es.append((f, t, "", T_DEV))
+        cfgs.append(es)
+    spaces.append(("E4:n=3 every ordered pair without self loops carries no edge, a regular edge, a dev edge, or both", 3, cfgs))
+    return spaces
+
+
+def ex_norm(es):
+    return tuple(sorted((f, t, r, type_key(ty)) for f, t, r, ty in es))
+
+
+def exhaustive_tier(ctx, orc, fixed):
+    node_txt = ['(1 "%s" 1 "%s" ())' % lv for lv in EX_LABELS]
+    lab_of = {lv: i for i, lv in enumerate(EX_LABELS)}
+    total = 0
+    classes_total = 0
+    desc = []
+    for name, n, cfgs in ex_spaces():
+        cfg_txt = ["(" + " ".join(sx(list(e)) for e in es) + ")" for es in cfgs]
+        cfg_idx = {ex_norm(es): i for i, es in enumerate(cfgs)}
+        assert len(cfg_idx) == len(cfgs)
+        perms = [[0] + list(p) for p in itertools.permutations(range(1, n))]
+        # action of every renumbering on edge configurations (the space must be closed under it)
+        ptab = []
+        for p in perms:
+            ptab.append([cfg_idx[ex_norm([(p[f], p[t], r, ty) for f, t, r, ty in es])] for es in cfgs])
+        labelings = list(itertools.product(range(4), repeat=n))
+        lab_idx = {l: i for i, l in enumerate(labelings)}
+        ltab = []
+        for p in perms:
+            row = []
+            for l in labelings:
+                nl = [0] * n
+                for i in range(n):
+                    nl[p[i]] = l[i]
+                row.append(lab_idx[tuple(nl)])
+            ltab.append(row)
+        NC = len(cfgs)
+        cls = {}          # graph id -> class representative id
+        for li in range(len(labelings)):
+            for ci in range(NC):
+                gid = li * NC + ci
+                if gid in cls:
+                    continue
+                for k in range(len(perms)):
+                    cls[ltab[k][li] * NC + ptab[k][ci]] = gid
+        ngraphs = len(labelings) * NC
+        total += ngraphs
+        classes_total += len(set(cls.values()))
+        desc.append("%s: %d labelings x %d edge configurations = %d graphs, %d renumberings each" % (
+            name, len(labelings), NC, ngraphs, len(perms)))
+
+        def case_of(gid):
+            li, ci = divmod(gid, NC)
+            return "((" + " ".join(node_txt[x] for x in labelings[li]) + ") " + cfg_txt[ci] + ' "")'
+
+        def graph_of(gid):
+            li, ci = divmod(gid, NC)
+            return ([mk_node(*EX_LABELS[x]) for x in labelings[li]], [list(e) for e in cfgs[ci]], "")
+
+        def perm_between(rep, gid):
+            rl, rc = divmod(rep, NC)
+            for k in range(len(perms)):
+                if ltab[k][rl] * NC + ptab[k][rc] == gid:
+                    return perms[k]
+            return None
+
+        first_out = {}    # class rep -> (gid, output line)
+        outputs = set()
+        CH = 200000
+        for st in range(0, ngraphs, CH):
+            gids = list(range(st, min(ngraphs, st + CH)))
+            args = [case_of(g) for g in gids]
+            impl = ctx.impl("canon_graph", args)
+            model = ctx.model("canon_graph", args)
+            ctx.count("corr:canon_graph(exhaustive)", len(args))
+            for gid, a, x, y in zip(gids, args, impl, model):
+                li, ci = divmod(gid, NC)
+                lab = labelings[li]
+                rd = lab[0] in lab[1:]
+                if x != y:
+                    # n <= 5: the literal insertion-sort path, no excuse
+                    ctx.divergence("canon_graph", a, x, y)
+                rep = cls[gid]
+                if rep not in first_out:
+                    first_out[rep] = (gid, x)
+                elif first_out[rep][1] != x:
+                    g0 = first_out[rep][0]
+                    p0, p1 = perm_between(rep, g0), perm_between(rep, gid)
+                    # renumbering from g0 to gid
+                    inv0 = [0] * n
+                    for i, j in enumerate(p0):
+                        inv0[j] = i
+                    p = [p1[inv0[i]] for i in range(n)]
+                    orc.classify("canonical form depends on the numbering of the nodes (exhaustive small scope)",
+                                 graph_of(g0), p, observed=x, required=first_out[rep][1], root_dupe=rd, variant=a)
+                if x.startswith('("ok"'):
+                    ctx.count("exhaustive:ok")
+                    outputs.add(x)
+                    # preservation: the output is a member of the same class (exact isomorphism test)
+                    v = fast_parse(x)
+                    try:
+                        oli = lab_idx[tuple(lab_of[(nd[1], nd[3])] for nd in v[1])]
+                        oci = cfg_idx[ex_norm([(e[0], e[1], e[2], e[3]) for e in v[2]])]
+                        ok = cls[oli * NC + oci] == rep and v[3] == ""
+                    except KeyError:
+                        ok = False
+                    if not ok:
+                        ctx.violation("Canon does not preserve root, nodes and edges (output is not a renumbering of the input)",
+                                      {"graph": a, "replay_kind": "canon_graph"}, observed=x)
+                    if len(set(lab)) < n:
+                        ctx.nontriv(a)
+                elif x == '("err")':
+                    ctx.count("exhaustive:err")
+                else:
+                    ctx.violation("Canon neither returned nor failed with an error", {"graph": a, "replay_kind": "canon_graph"}, observed=x)
+        # idempotence on every distinct output
+        outs = sorted(outputs)
+        for st in range(0, len(outs), CH):
+            part = outs[st:st + CH]
+            args = [out_graph_sx(o) for o in part]
+            impl = ctx.impl("canon_graph", args)
+            for a, o, o2 in zip(args, part, impl):
+                if o2 != o:
+                    v = fast_parse(a)
+                    h = (v[0], v[1], v[2])
+                    orc.classify("Canon is not idempotent (exhaustive small scope)", h, None, observed=o2, required=o,
+                                 root_dupe=has_root_dupe(h), variant=a)
+        ctx.count("exhaustive:idempotence_checked", len(outs))
+    ctx.extra["exhaustive_small_scope"] = True
+    ctx.extra["exhaustive_space"] = {"labels": ["%s@%s" % lv for lv in EX_LABELS], "spaces": desc, "graphs": total,
+                                     "isomorphism_classes": classes_total}
